@@ -88,6 +88,7 @@ type zzConnCfg struct {
 	poolSize   uint32
 	blockwise  bool // block-wise transfer enabled (SZX 16, the same wiring as udp.Client)
 	limit      int64 // parallel-request limit (0: 4)
+	monitor    InactivityMonitor
 }
 
 func zzNewConn(s *zzSession, c zzConnCfg) *Conn {
@@ -122,6 +123,9 @@ func zzNewConn(s *zzSession, c zzConnCfg) *Conn {
 		cfg.LimitClientParallelRequests = c.limit
 	}
 	cfg.ReceivedMessageQueueSize = 2
+	if c.monitor != nil {
+		return NewConnWithOpts(s, &cfg, WithInactivityMonitor(c.monitor))
+	}
 	if c.blockwise {
 		cfg.BlockwiseSZX = blockwise.SZX16
 		return NewConnWithOpts(s, &cfg, WithBlockWise(func(v *Conn) *blockwise.BlockWise[*Conn] {
